@@ -6,4 +6,5 @@ let table = [
   ("queryloop", Model.entry_queryloop);
   ("stages", Model.entry_stages);
   ("vss", Model.entry_vss);
+  ("bn", Model.entry_bn);
 ]
